@@ -356,14 +356,25 @@ c.ensures("pid/work-waiting-with-no-worker-left-is-never-abandoned",
 c.replay_for("pid/work-waiting-with-no-worker-left-is-never-abandoned", "respawn_after_executor_collected")
 c.ensures("pid/reads-the-executor-only-when-work-waits", f"implies({PID}, (log_count('deref') == 1) == {WAITING})", prop=["C07", "C08"])
 # the only exception the manager thread may meet here is a failed spawn of the replacement worker (anything else kills the thread and every pending future hangs)
-c.raises("result/only-a-failed-spawn-from-the-respawn", "OSError", post=f"{PID}")
-c.raises_only("result/nothing-but-a-failed-spawn-escapes")
+# ... and a failed spawn must not end the thread silently either: the executor is flagged broken and every pending future failed (terminate_broken) before the
+# error is passed on, so that the jobs the missing worker would have run fail loudly instead of hanging (C07: never a lost task; C02: loud)
+c.raises("result/only-a-failed-spawn-from-the-respawn-and-only-after-the-pool-was-terminated-as-broken", "BaseException",
+         post=f"{PID} and log_count('raise:ProcessPoolExecutor._adjust_process_count') == 1 and "
+              "log_count('call:_ExecutorManagerThread.terminate_broken') + log_count('raise:_ExecutorManagerThread.terminate_broken') == 1 and "
+              "self.executor_flags.broken is not None")
+c.replay_for("result/only-a-failed-spawn-from-the-respawn-and-only-after-the-pool-was-terminated-as-broken", "respawn_fails_in_manager_thread")
+c.raises_only("result/nothing-but-a-failed-spawn-or-an-error-of-the-termination-it-triggers-escapes")
 c.warn_may_raise = True          # the parent may run with warnings as errors (-W error, pytest): the respawn warning is issued from the manager thread
-c.replay_for("result/nothing-but-a-failed-spawn-escapes", "respawn_warning_as_error")
+c.replay_for("result/nothing-but-a-failed-spawn-or-an-error-of-the-termination-it-triggers-escapes", "respawn_warning_as_error")
 c.replay_for("result/exception-as-sent", "falsy_exception")
 c.replay_for("result/value-as-sent", "falsy_exception")
 c.modifies("contents(self.pending_work_items)", "contents(self.running_work_items)", "contents(self.processes)",
-           "G.fut_n_exc", "G.fut_n_res", "G.fut_exc", "G.fut_exc_cls", "G.fut_res", "G.sem_released", "G.joined", "G.started", "G.pid_live", "G.proc_of_pid")
+           "G.fut_n_exc", "G.fut_n_res", "G.fut_exc", "G.fut_exc_cls", "G.fut_res", "G.sem_released", "G.joined", "G.started", "G.pid_live", "G.proc_of_pid",
+           # (the failed-respawn path runs terminate_broken)
+           "self.executor_flags.shutdown", "self.executor_flags.broken", "G.fut_refused", "G.killed", "G.n_sentinels", "self.thread_wakeup._closed", "G.ps_killed")
+c.ensures("result/the-pool-is-terminated-as-broken-only-when-the-respawn-failed",
+          "log_count('call:_ExecutorManagerThread.terminate_broken') == 0 and self.executor_flags.broken is old(self.executor_flags.broken) and "
+          "self.executor_flags.shutdown == old(self.executor_flags.shutdown) and G.killed == old(G.killed) and G.fut_refused == old(G.fut_refused)", prop=["C07", "C02"])
 c.assumes("A-atomic")
 c.cover("pid-known", "is_int(result_item) and old(result_item in self.processes)")
 c.cover("result-known", "not is_int(result_item) and old(result_item.work_id in self.pending_work_items)")
@@ -493,6 +504,7 @@ c.ensures("terminate/flagged-broken-first", "log_pos('call:_ExecutorFlags.flag_a
 c.ensures("terminate/every-pending-future-fails-with-the-error", ALL_FAILED)
 c.ensures("terminate/no-fabricated-result", "G.fut_n_res == old(G.fut_n_res) and G.fut_res == old(G.fut_res)")
 c.ensures("terminate/nothing-left-pending", "len(self.pending_work_items) == 0")
+c.ensures("terminate/executor-left-flagged-broken-with-that-error-and-shut-down", "self.executor_flags.broken is bpe and self.executor_flags.shutdown == True")
 c.ensures("terminate/workers-killed-then-internals-joined",
           "log_count('call:_ExecutorManagerThread.kill_workers') == 1 and log_count('call:_ExecutorManagerThread.join_executor_internals') == 1 and "
           "log_before('call:_ExecutorManagerThread.kill_workers', 'call:_ExecutorManagerThread.join_executor_internals')")
@@ -685,6 +697,7 @@ c.ensures("start/exit-hook-registered-once", "implies(old(process_pool_executor_
           "process_pool_executor_at_exit is old(process_pool_executor_at_exit)) and "
           "implies(old(process_pool_executor_at_exit) is None and old(self._executor_manager_thread) is None, log_count('register_atexit') == 1 and "
           "log_arg('register_atexit', 0, 0) is _python_exit)", prop="C05")
+c.replay_for("start/new-manager-built-on-this-executor-started-and-registered-for-interpreter-exit", "exit_hook_registered_once")
 c.raises("start/thread-creation-may-fail", "RuntimeError")
 c.modifies("self._executor_manager_thread", f"glob:{PE}.process_pool_executor_at_exit", "G.referent")
 
@@ -740,6 +753,12 @@ c.raises("submit/broken-first-and-nothing-touched", "BaseException",
 c.raises("submit/rep-invariants-kept-when-a-spawn-fails", "OSError",
          post="forall(Int, lambda k: implies(k in self._pending_work_items, k < self._queue_count)) and "
               "forall(Int, lambda k: implies(G.work_ids[k], k in self._pending_work_items))", prop="C03")
+# C03 (at most once): a submission that raises is not accepted, the caller holds no future and will retry: the work item it had already registered must not be
+# run later; it is cancelled (the manager thread drops a cancelled item) before anybody could mark it running (sequentially: A-atomic). Its own clause: F31
+c.raises("submit/a-submission-that-raises-leaves-no-work-item-that-will-run-later", "OSError",
+         post="implies(self._queue_count == old(self._queue_count) + 1 and old(self._queue_count) in self._pending_work_items, "
+              "exists_event('fut_cancel', lambda f_, ok_: f_ is self._pending_work_items[old(self._queue_count)].future and ok_))", prop="C03")
+c.replay_for("submit/a-submission-that-raises-leaves-no-work-item-that-will-run-later", "submit_raises_but_task_runs")
 c.ensures("submit/only-on-a-healthy-executor", "old(self._flags.broken) is None and not old(self._flags.shutdown) and not old(_global_shutdown)", prop=["C02", "C05"])
 c.ensures("submit/fresh-id-maps-to-own-work-item",
           "self._queue_count == old(self._queue_count) + 1 and old(self._queue_count) in self._pending_work_items and "
